@@ -281,3 +281,11 @@ Theorem T08_attwildcard_anylist_refuted :
   wexpr_allows e u1 = true /\ exists w, m_wexpr_faithful e = Some w /\ wildcard_allows w u1 = false.
 Proof. cbv zeta. split; [reflexivity|]. exists (NsSet []). split; reflexivity. Qed.
 Print Assumptions T08_attwildcard_anylist_refuted.
+
+(** known finding C08-attwild-emptyunion on the faithful model: (##other /\ ##local) \/ ##other is expressible
+    (it is ##other) but the unrepaired union gives up *)
+Theorem T08_attwildcard_emptyunion_refuted :
+  let e := WUnion (WInter (WLeaf (NsNot u2)) (WLeaf (NsSet [u1]))) (WLeaf (NsNot u2)) in
+  m_wexpr e = Some (NsNot u2) /\ m_wexpr_faithful e = None.
+Proof. cbv zeta. split; reflexivity. Qed.
+Print Assumptions T08_attwildcard_emptyunion_refuted.
